@@ -5,7 +5,7 @@
 worktrees of /repo's HEAD under a temporary directory, applies each diff there, runs all twenty quick checks with `--repo <worktree>`
 (no evidence written), and removes the worktrees again.  /repo's working tree is never touched.  Any exit code != 0 is a false
 alarm (1) or a refusal (2).  Writes /verif/refactors/results.json.
-usage: /venv/bin/python tools/run_refactors.py [Rxx ...] [-j N]
+usage: /venv/bin/python tools/run_refactors.py [Rxx ...] [-j N] [--checks Cxx,Cyy]
 """
 import json
 import subprocess
@@ -28,6 +28,10 @@ jobs = 5
 if "-j" in args:
     jobs = int(args[args.index("-j") + 1])
     del args[args.index("-j"): args.index("-j") + 2]
+only_checks = None
+if "--checks" in args:
+    only_checks = args[args.index("--checks") + 1].split(",")
+    del args[args.index("--checks"): args.index("--checks") + 2]
 sel = args
 head = sh(["git", "-C", "/repo", "rev-parse", "HEAD"]).stdout.strip()
 tmp = Path(tempfile.mkdtemp(prefix="mxverif-refactors-"))
@@ -54,7 +58,11 @@ def one(d: Path):
                 ap.stderr = "three-way merge left conflicts"
         row = {"applies": ap.returncode == 0, "alarms": {}, "files": sorted({l[6:].strip() for l in d.read_text().splitlines() if l.startswith("+++ b/")})}
         if ap.returncode == 0:
-            for c in ALL:
+            if only_checks is not None:
+                # re-evaluate only some checks: the verdicts of the others are carried over from the previous evaluation
+                prev_ = json.loads((V / "refactors" / "results.json").read_text()).get(f"{d.parent.name}/{d.stem}", {}).get("alarms", {})
+                row["alarms"] = {k: v for k, v in prev_.items() if k not in only_checks}
+            for c in (ALL if only_checks is None else only_checks):
                 v = sh(["./vcheck", c, "--repo", str(wt), "--no-evidence", "--no-selftest"], cwd=str(V))
                 if v.returncode != 0:
                     row["alarms"][c] = {"exit": v.returncode, "reports": [l.strip()[:200] for l in v.stdout.splitlines() if l.startswith(("  [", "ANALYSIS-ERROR"))][:4]}
